@@ -527,6 +527,36 @@ fn generate(full: bool) -> String {
             g.case("derive-field-type-shapes", &format!("{}<'a>", name), &e, 3, &prelude);
         }
     }
+    // (iv-f) derived structs with MANY fields: around and beyond the largest tuple arity the library implements (26)
+    for fields in [25usize, 26, 27, 28, 52, 53] {
+        for form in 0..2 {
+            for k in [K::Write, K::OptRead, K::Read] {
+                if !full && (k == K::Read || (form == 1 && fields > 28)) {
+                    continue;
+                }
+                let mut e = Exp::default();
+                let mut body = String::new();
+                for i in 0..fields {
+                    let leaf = if i == fields - 1 { T::Leaf(k, i) } else { T::Leaf(if i % 2 == 0 { K::Write } else { K::Read }, i) };
+                    let mut sx = String::new();
+                    ty(&leaf, &mut sx, &mut e);
+                    if form == 0 {
+                        write!(body, "    pub f{}: {},\n", i, sx).unwrap();
+                    } else {
+                        write!(body, "{}, ", sx).unwrap();
+                    }
+                }
+                let name = format!("S{}", sid);
+                sid += 1;
+                let prelude = if form == 0 {
+                    format!("#[derive(SystemData)]\n#[allow(dead_code)]\npub struct {}<'a> {{\n{}}}\n", name, body)
+                } else {
+                    format!("#[derive(SystemData)]\n#[allow(dead_code)]\npub struct {}<'a>({});\n", name, body)
+                };
+                g.case("derive-many-fields", &format!("{}<'a>", name), &e, fields, &prelude);
+            }
+        }
+    }
     // (iv-e) syntax the derive has to carry over: a default type parameter, a const generic, path-qualified field
     // types, raw identifiers, attributes and doc comments on fields, restricted visibility, lifetime bounds
     for k in &member_kinds {
